@@ -19,7 +19,7 @@ PROP = "C07"
 LEVEL = "exploration"
 TECHNIQUE = "metamorphic runtime monitor: convert(D + unknown/vendor insertions) vs convert(D), compared by an independent model walker; insertion kinds x every child position x element-tree and text level (XML, SGML)"
 RULE = ("valid documents of every class x insertion kinds {unknown data element, unknown empty element, unknown aggregate with arbitrary content, "
-        "unknown aggregate whose content repeats children the PARENT defines, known-elsewhere aggregate not declared by the parent, vendor data "
+        "unknown aggregate whose content repeats children the PARENT defines, known-elsewhere aggregate not declared by the parent, unknown tag named like a Python attribute of the model class (COUNT, INDEX, ACCOUNT, ...), vendor data "
         "element INTU.BID, vendor aggregate, vendor aggregate containing parent-defined children} x child positions (5 random per aggregate in "
         "quick; EVERY position of every aggregate for documents <= 60 nodes in thorough) x 1-4 simultaneous insertions, at ET.Element level and "
         "at text level in XML / unclosed-SGML / independently rendered mixed form. A case = (class, seed, insertion set, level)")
@@ -33,7 +33,8 @@ DESIGN_REF = "DESIGN.md §3 C07"
 MIN_COUNTERS = {"quick": {"etree_insertions": 15000, "text_insertions": 3000, "classes": 380, "between_list_members": 200}, "thorough": {"etree_insertions": 300000, "text_insertions": 40000, "classes": 380}}
 
 V1HDR = "OFXHEADER:100\r\nDATA:OFXSGML\r\nVERSION:160\r\nSECURITY:NONE\r\nENCODING:UNICODE\r\nCHARSET:NONE\r\nCOMPRESSION:NONE\r\nOLDFILEUID:NONE\r\nNEWFILEUID:NONE\r\n\r\n"
-KINDS = ["unknown-data", "unknown-empty", "unknown-agg", "unknown-agg-parent-children", "known-elsewhere-agg", "vendor-data", "vendor-agg", "vendor-agg-parent-children"]
+KINDS = ["unknown-data", "unknown-empty", "unknown-agg", "unknown-agg-parent-children", "known-elsewhere-agg", "vendor-data", "vendor-agg", "vendor-agg-parent-children",
+         "unknown-named-like-python-attribute"]
 RENAMED = {"FROM", "FRM", "YIELD", "YLD"}
 
 
@@ -60,6 +61,18 @@ def make_insertion(kind, rng, parent_elem, parent_cls, classes):
     decl = declared_tags(parent_cls) | RENAMED
     if kind == "unknown-data":
         return leaf(rng.choice(["ZZUNKNOWN", "XMEMO2", "Q9", "NEWTAG"]), rng.choice(["text", "1", "a&b", "20200101"]))
+    if kind == "unknown-named-like-python-attribute":
+        # an undeclared tag whose lower-cased name happens to be an attribute of the model class (list methods,
+        # convenience properties, machinery): it is still just an unknown tag
+        names = [n for n in dir(parent_cls) if n.isidentifier() and not n.startswith("_") and n.upper() not in decl and n.lower() == n]
+        if not names:
+            return None
+        n = rng.choice(names).upper()
+        if rng.random() < 0.6:
+            return leaf(n, rng.choice(["1", "text"]))
+        e = ET.Element(n)
+        e.append(leaf("CODE", "0"))
+        return e
     if kind == "unknown-empty":
         return ET.Element(rng.choice(["ZZEMPTY", "XAGG"]))
     if kind == "unknown-agg":
